@@ -2,6 +2,7 @@
 From Coq Require Import List Arith ZArith Lia Bool Permutation.
 Import ListNotations.
 Require Import R.AssocList R.MapRec R.SortedMap R.DModel3 R.DProofs4.
+Require Import R.DSetters.
 
 Section P3.
 Variables (oscript udiff_t mdiff_t: Type).
@@ -19,9 +20,8 @@ Notation apply_fs := (DModel3.apply_fs oscript udiff_t mdiff_t oapply uapply map
 Notation apply_f := (DModel3.apply_f oscript udiff_t mdiff_t oapply uapply mapply iter_order).
 Notation field_of := (DModel3.field_of oscript udiff_t mdiff_t).
 
-Fixpoint strat_at (fs: fields) (i: nat) : fstrat := match fs, i with FNil, _ => FSkip | FCons f _, 0 => f | FCons _ fs', S i' => strat_at fs' i' end.
 Definition has_field (j: nat) (e: entry) : bool := match field_of e with Some k => k =? j | None => false end.
-Definition dflt := VNone.
+Notation dflt := DSetters.dflt.
 
 (* one apply_single on a struct changes position i only if the entry names field base+i, and then by apply_f of that field's strategy *)
 Lemma apply_fs_nth fs : forall base xs (e: entry) i, i < length xs -> length xs <= (fix len (fs: fields) := match fs with FNil => 0 | FCons _ r => S (len r) end) fs ->
